@@ -162,4 +162,5 @@ extern void (*g_yieldHook)(const void *addr, int kind);
 
 } // namespace vsim
 
-extern "C" int verif_store_rebuilding(); // glue.cc: Store::Controller::store_dirs_rebuilding
+extern "C" int verif_store_rebuilding();
+extern "C" void verif_rock_walk(const char *label); // glue.cc: C57 index walk // glue.cc: Store::Controller::store_dirs_rebuilding
